@@ -167,6 +167,14 @@ def bpHandler : Handler := fun op j =>
     match normEid e with
     | none => some (jobj [("none", Json.bool true)])
     | some e' => some (jobj [("eid", eidToJson e'), ("wf", Json.bool (wfEid e))])
+  | "bp.defaults" =>
+    -- default-constructed objects: PrimaryBlock(), Timestamp(), CanonicalBlock(type_code=1, block_num=1, btsd=b'')
+    some (jobj [("primary", jhex ({} : Primary).enc), ("timestamp", jhex ({} : Primary).ts.enc),
+                ("canonical", jhex ({ typeCode := 1, blockNum := 1 } : Canonical).enc)])
+  | "bp.updatecrckeep" => do
+    let b ← getBundle? j
+    let b' : Bundle := { primary := b.primary.updateCrcKeep, blocks := b.blocks.map Canonical.updateCrcKeep }
+    some (jobj [("bundle", bundleToJson b'), ("hex", jhex b'.enc)])
   | "bp.dtntime" => do
     let us ← getNat? j "us"
     some (jobj [("dtntime", jnat (dtnTimeOfMicros us)), ("back_us", jnat (microsOfDtnTime (dtnTimeOfMicros us)))])
